@@ -21,16 +21,18 @@ ID = "C12"
 TECHNIQUE = "bounded-exhaustive grid enumeration of symmetric PSD inputs x eigenvector estimates x QR settings on the real matrix_eigenvectors; structural oracles (orthonormal, diagonalising, ordered, orthogonal-iteration staircase, fixed point)"
 RULE = (
     "n in {1,2,3,4,8,16[,64]} x spectra {distinct, repeated_pair, equal, one_zero, rankdef} x bases {identity, perm, householder, givens, dct} x dtype {f32,f64}; eigh, diagonal flag; QR with estimate in "
-    "{zero, exact, exact-permuted, rotated(1e-3), rotated(0.3), rotated(1.2), identity} x max_iterations {1,2,5,50} x tolerance {0,1e-5,1e-1}. state = the input tuple; non-trivial = QR case with a non-zero estimate"
+    "{zero, exact, exact-permuted, rotated(1e-3), rotated(1e-6), rotated(0.3), rotated(1.2), identity} x max_iterations {1,2,5,50} x tolerance {0,1e-5,1e-1,1e-9}. state = the input tuple; non-trivial = QR case with a non-zero estimate"
 )
 ASSUMPTIONS = ["grid only", "on degenerate subspaces only 'still an orthonormal basis spanning the iteration' is required", "c = 64 in rounding bounds; staircase zero threshold 1e-3 (f32) / 1e-8 (f64) of max|M|"]
 TRUSTED = ["numpy float64 linear algebra", "mc.props.c03.staircase_ok"]
 EXHAUSTIVE = True
 CC = 64.0
 SPECTRA = ["distinct", "repeated_pair", "equal", "one_zero", "rankdef"]
-ESTIMATES = ["zero", "exact", "exact_perm", "rot1e-3", "rot0.3", "rot1.2", "identity"]
+# rotd*: rotation of the exact basis in DESCENDING eigenvalue order - the stable fixed point of orthogonal iteration, where the
+# relative change really shrinks from step to step (tolerance-driven stops happen here)
+ESTIMATES = ["zero", "exact", "exact_perm", "rot1e-3", "rot1e-6", "rotd1e-3", "rotd1e-6", "rot0.3", "rot1.2", "identity"]
 ITERS = [1, 2, 5, 50]
-QTOLS = [0.0, 1e-5, 1e-1]
+QTOLS = [0.0, 1e-5, 1e-1, 1e-9]  # 1e-9: below float32 resolution, meaningful for float64
 
 
 EXTREME = {"f32": [3e19, 1e-25], "f64": [1e160, 1e-160]}
@@ -67,6 +69,8 @@ def estimate(kind, Q, n):
         return Q.copy()
     if kind == "exact_perm":
         return Q[:, ::-1].copy()
+    if kind.startswith("rotd"):
+        return estimate("rot" + kind[4:], Q[:, ::-1].copy(), n)
     th = float(kind[3:])
     if n < 2:
         return Q.copy()
@@ -222,7 +226,9 @@ def check_input(torch, c, stats):
                 Qr = Qr[:, np.argsort(rqr)]
                 dev = max(min(np.linalg.norm(Q[:, j] - Qr[:, j]), np.linalg.norm(Q[:, j] + Qr[:, j])) for j in range(n))
                 stats["exact_k_checked"] = stats.get("exact_k_checked", 0) + 1
-                if not dev <= max(1e3 * amp, 1e-4 if dtype == "f32" else 1e-9):
+                # near the descending (stable) order errors contract instead of growing by cond^k
+                thr = (1e-4 if dtype == "f32" else 1e-9) if est.startswith("rotd") else max(1e3 * amp, 1e-4 if dtype == "f32" else 1e-9)
+                if not dev <= thr:
                     out.append((case, f"result differs from the orthogonal iteration stopped by the configured rule (reference stops after k={kref} of max {iters}, tolerance {qtol}): column deviation {dev:.2e}"))
         if est in ("exact", "exact_perm"):
             # Fixed point (up to column signs).  Orthogonal iteration amplifies the rounding error of the estimate by
